@@ -350,6 +350,55 @@ func checkC03(c *Ctx) {
 			cases = append(cases, tcase{t, fmt.Sprintf("ind%q eol%q as%d dot%d cmp%d ascii%d cm%v oc%v tk%v br%v se%v", l.Indent, l.EOL, l.AssignWord, l.Dot, l.CmpWords, l.ASCII, l.Comments, l.OptComma, l.TightKW, l.Breaks, l.Semis), zr.Render(p, l), want})
 		}
 	}
+	// long programs: thousands of statements, flat or spread over many small blocks - size is not
+	// nesting, and no bound of the parser may count the one as the other
+	for _, shape := range []string{"flat-2500", "flat-6000", "blocks-200x15", "methods-150x20"} {
+		g := &synGen{r: rng, max: 2}
+		p := &zr.Program{}
+		simple := func() zr.Stmt {
+			for {
+				st := g.stmt(0)
+				switch st.(type) {
+				case zr.Let, zr.ExprStmt, zr.Empty:
+					return st
+				}
+			}
+		}
+		switch shape {
+		case "flat-2500", "flat-6000":
+			n := 2500
+			if shape == "flat-6000" {
+				n = 6000
+			}
+			for k := 0; k < n; k++ {
+				p.Body = append(p.Body, simple())
+			}
+		case "blocks-200x15":
+			for b := 0; b < 200; b++ {
+				body := []zr.Stmt{}
+				for k := 0; k < 15; k++ {
+					body = append(body, simple())
+				}
+				body = append(body, zr.ExprStmt{E: intLit(b)})
+				p.Body = append(p.Body, zr.If{Cond: zr.N("真"), Then: body})
+			}
+		default:
+			for b := 0; b < 150; b++ {
+				body := []zr.Stmt{}
+				for k := 0; k < 20; k++ {
+					body = append(body, simple())
+				}
+				body = append(body, zr.Return{E: intLit(b)})
+				p.Body = append(p.Body, &zr.FuncDef{Name: fmt.Sprintf("长法%d", b), Body: body})
+			}
+			p.Body = append(p.Body, zr.ExprStmt{E: intLit(1)})
+		}
+		want := zr.DumpProgram(p)
+		cases = append(cases, tcase{nTrees, "canonical long/" + shape, zr.Render(p, zr.Layout{}), want})
+		l := zr.RandomLayout(rand.New(rand.NewSource(rng.Int63())))
+		cases = append(cases, tcase{nTrees, "random long/" + shape, zr.Render(p, l), want})
+		nTrees++
+	}
 	reqs := make([]Req, len(cases))
 	for i, cs := range cases {
 		reqs[i] = parseReq([]rune(cs.src))
